@@ -23,4 +23,19 @@ def sm4mode (args : List String) : String :=
 def sm4mseq (args : List String) : String :=
   " ".intercalate (args.map fun a => sm4mode (a.splitOn ","))
 
+/-- `sm4ivseq <mode,e,key,iv,in>…` : `SetIV` refuses an IV that is not 16 bytes long (`rej:`) and the IV in force
+    stays; the first IV must be valid -/
+def sm4ivseq (args : List String) : String :=
+  let step := fun (st : Option String × List String × Bool) (a : String) =>
+    match a.splitOn "," with
+    | [m, e, key, iv, inp] =>
+      let valid := iv.length == 32
+      let cur := if valid then some iv else st.1
+      match cur, ofHex (if iv == "-" then "" else iv) with
+      | some c, some _ => (cur, st.2.1 ++ [(if valid then "" else "rej:") ++ sm4mode [m, e, key, c, inp]], st.2.2)
+      | _, _ => (st.1, st.2.1, true)
+    | _ => (st.1, st.2.1, true)
+  let r := args.foldl step (none, [], false)
+  if r.2.2 then "bad-op" else " ".intercalate r.2.1
+
 end Driver
